@@ -695,7 +695,7 @@ def run(ck):
                     ml += " S %d %s" % (len(st), " ".join(st))
             mlines.append(ml)
             midx.append(k)
-    rc, mout, merr = vv.run_lines(model, "\n".join(mlines) + "\n")
+    rc, mout, merr = vv.run_lines_parallel(model, mlines)
     if rc != 0 or len(mout) != len(mlines):
         raise vv.BuildError("model driver failed: rc=%s %s" % (rc, merr[:500]))
     mres = dict(zip(midx, mout))
